@@ -26,8 +26,10 @@ open Generated.Gate
 
 /-- `mem`: a raw JSON-RPC peer on an in-memory pipe; `http`: a session of a stateful StreamableHTTPHandler;
 `cli`: a real `mcp.Client` on in-memory transports (`Client.Connect` performs the handshake; calls are made with
-`AddSendingCustomMethod` + `CallCustomMethod`) — the same server side as `mem`. -/
-inductive Kind | mem | http | cli
+`AddSendingCustomMethod` + `CallCustomMethod`) — the same server side as `mem`; `hnew`: the STATELESS
+StreamableHTTPHandler addressed under the 2026-07-28 protocol (`Mcp-Protocol-Version` / `Mcp-Method` headers, complete
+per-request `_meta` in object params): every call is its own POST on a temporary session, no handshake. -/
+inductive Kind | mem | http | cli | hnew
 deriving DecidableEq, Repr
 
 /-- A session of the server: its transport and whether `InitializeParams` is set. -/
@@ -93,10 +95,23 @@ def httpAnswer (reg : List String) (init : Bool) (c : Call) : Out :=
   else if !c.hasId then ⟨.httpRefused, false⟩
   else sessionAnswer reg init c
 
+/-- `servePOST` under a `Mcp-Protocol-Version` ≥ 2026-07-28 header, then the temporary session (`serveEphemeral`):
+an unknown method of a call is answered -32601 as a JSON-RPC error bearing the id (HTTP 404), any other
+`checkRequest` failure is HTTP 400 without a message; params that are no object cannot carry the per-request `_meta`
+the header announces: -32602 (HTTP 400); otherwise the session serves the request without a handshake (the gate's
+default arm adopts the `_meta` identity) and `unmarshalParams` decides. -/
+def modernAnswer (reg : List String) (c : Call) : Out :=
+  if !reg.contains c.name then (if c.hasId then ⟨.error checkUnknownMethod, false⟩ else ⟨.httpRefused, false⟩)
+  else if !c.hasId then ⟨.httpRefused, false⟩
+  else if !c.params.isObject then ⟨.error codeInvalidParams, false⟩
+  else if badParams c.params then ⟨.error decodeFailure, false⟩
+  else ⟨.result, true⟩
+
 def answerOn (reg : List String) (s : Sess) (c : Call) : Out :=
   match s.kind with
   | .mem | .cli => sessionAnswer reg s.init c
   | .http => httpAnswer reg s.init c
+  | .hnew => modernAnswer reg c
 
 def setInit : List Sess → Nat → List Sess
   | [], _ => []
@@ -108,6 +123,7 @@ def step (s : State) : Op → State × Res
   | .openS .mem => ({ s with sess := s.sess ++ [⟨.mem, false⟩] }, .ok)
   | .openS .http => ({ s with sess := s.sess ++ [⟨.http, true⟩] }, .ok)
   | .openS .cli => ({ s with sess := s.sess ++ [⟨.cli, true⟩] }, .ok)
+  | .openS .hnew => ({ s with sess := s.sess ++ [⟨.hnew, true⟩] }, .ok)
   | .hs k =>
     match s.sess[k]? with
     | some ⟨.mem, false⟩ => ({ s with sess := setInit s.sess k }, .ok)
@@ -148,7 +164,8 @@ theorem registered_call_answered (s0 : State) (pre post : List Op) (n : String) 
     (c : Call) (hc : c.name = n) (hid : c.hasId = true) (x : Sess)
     (hx : (run s0 (pre ++ [.reg n] ++ post)).sess[c.k]? = some x) (hi : x.init = true) :
     (answerOn (run s0 (pre ++ [.reg n] ++ post)).registered x c =
-      ⟨if badParams c.params then .error decodeFailure else .result, !badParams c.params⟩) := by
+      if x.kind = .hnew ∧ c.params.isObject = false then ⟨.error codeInvalidParams, false⟩
+      else ⟨if badParams c.params then .error decodeFailure else .result, !badParams c.params⟩) := by
   have hreg : n ∈ (run s0 (pre ++ [.reg n] ++ post)).registered := by
     have run_append : ∀ (a b : List Op) (s : State), run s (a ++ b) = run (run s a) b := by
       intro a
@@ -168,15 +185,20 @@ theorem registered_call_answered (s0 : State) (pre post : List Op) (n : String) 
   | cli =>
     simp only [answerOn, hk, sessionAnswer, hi, hcont, hid]
     cases badParams c.params <;> simp
+  | hnew =>
+    simp only [answerOn, hk, modernAnswer, hcont, hid]
+    cases c.params <;> simp [PShape.isObject, badParams]
   | http =>
     simp only [answerOn, hk, httpAnswer, sessionAnswer, hi, hcont, hid]
     cases badParams c.params <;> simp
 
 /-- **C06 for custom methods.** On a session without `InitializeParams` no custom method reaches its handler,
 and a call is refused with an error. -/
-theorem uninitialized_never_served (reg : List String) (x : Sess) (c : Call) (hi : x.init = false) :
+theorem uninitialized_never_served (reg : List String) (x : Sess) (c : Call) (hi : x.init = false)
+    (hmod : x.kind ≠ .hnew) :
     (answerOn reg x c).ran = false ∧ (answerOn reg x c).ans ≠ .result := by
   cases hk : x.kind with
+  | hnew => exact absurd hk hmod
   | mem => simp [answerOn, hk, sessionAnswer, hi]; split <;> simp
   | cli => simp [answerOn, hk, sessionAnswer, hi]; split <;> simp
   | http =>
@@ -230,6 +252,12 @@ theorem http_sessions_initialized : ∀ (l : List Op) (s : State),
         rcases hx with hx | rfl
         · exact h x hx hk
         · cases hk
+      | hnew =>
+        intro x hx hk
+        simp only [step, List.mem_append, List.mem_singleton] at hx
+        rcases hx with hx | rfl
+        · exact h x hx hk
+        · cases hk
       | http =>
         intro x hx hk
         simp only [step, List.mem_append, List.mem_singleton] at hx
@@ -269,11 +297,11 @@ deriving DecidableEq, Repr
 
 inductive Clause
   | multi | stray | malformed | notifAnswered
-  | beforeInit | dropped | unknownCode | paramsCode | ranTwice | unreadable
+  | beforeInit | dropped | unknownCode | paramsCode | ranTwice | modernNoMeta | unreadable
 deriving DecidableEq, Repr
 
 def Clause.pid : Clause → PID
-  | .beforeInit => .C06
+  | .beforeInit | .modernNoMeta => .C06
   | _ => .C02
 
 def isErr : W → Bool
@@ -291,12 +319,13 @@ def callRules (regd : List String) (x : Sess) (c : Call) (o : CObs) : List (Bool
     ((match o.w with | .stray _ => true | _ => false), .stray),
     (o.w == .malformed, .malformed),
     (!c.hasId && o.w != .none, .notifAnswered),
-    (!x.init && (o.ran != 0 || (c.hasId && !isErr o.w && !(x.kind == .http && o.w == .none && is4xx o.http))), .beforeInit),
+    (!x.init && x.kind != .hnew && (o.ran != 0 || (c.hasId && !isErr o.w && !(x.kind == .http && o.w == .none && is4xx o.http))), .beforeInit),
     (x.init && c.hasId && known && o.w == .none, .dropped),
     (x.init && c.hasId && !known &&
       !(o.w == .err (-32601) none || (x.kind == .http && o.w == .none && is4xx o.http)), .unknownCode),
     (x.init && c.hasId && known && badParams c.params && (o.w != .err (-32602) none || o.ran != 0), .paramsCode),
-    (decide (1 < o.ran), .ranTwice) ]
+    (decide (1 < o.ran), .ranTwice),
+    (x.kind == .hnew && !c.params.isObject && o.ran != 0, .modernNoMeta) ]
 
 def monitor (m : Mem) : Op → Obs → Option Clause
   | _, .unreadable => some .unreadable
@@ -314,6 +343,7 @@ def memNext (m : Mem) : Op → Obs → Mem
   | .openS .http, .ack ok => { m with sess := m.sess ++ [⟨.http, ok⟩] }
   | .openS .cli, .ack ok => { m with sess := m.sess ++ [⟨.cli, ok⟩] }
   | .openS .cli, _ => { m with sess := m.sess ++ [⟨.cli, false⟩] }
+  | .openS .hnew, _ => { m with sess := m.sess ++ [⟨.hnew, true⟩] }
   | .openS .mem, _ => { m with sess := m.sess ++ [⟨.mem, false⟩] }
   | .openS .http, _ => { m with sess := m.sess ++ [⟨.http, false⟩] }
   | .hs k, .ack true => { m with sess := setInit m.sess k }
@@ -331,7 +361,7 @@ def P (regd : List String) (x : Sess) (c : Call) (o : CObs) : Clause → Prop
   /- "notifications never receive a response" -/
   | .notifAnswered => c.hasId = false → o.w = .none
   /- C06: "nothing … reaches server-side handlers until an initialize request has been accepted" -/
-  | .beforeInit => x.init = false → o.ran = 0 ∧
+  | .beforeInit => x.init = false → x.kind ≠ .hnew → o.ran = 0 ∧
       (c.hasId = true → isErr o.w = true ∨ (x.kind = .http ∧ o.w = .none ∧ is4xx o.http = true))
   /- "each well-formed request that carries an id receives … one response", for a method the server knows -/
   | .dropped => x.init = true → c.hasId = true → c.name ∈ regd → o.w ≠ .none
@@ -343,6 +373,9 @@ def P (regd : List String) (x : Sess) (c : Call) (o : CObs) : Clause → Prop
       o.w = .err (-32602) none ∧ o.ran = 0
   /- one call, one invocation -/
   | .ranTwice => o.ran ≤ 1
+  /- C06: "Requests carrying the 2026-07-28 per-request metadata are served without a handshake only if that
+  metadata is complete": params that are no object carry none -/
+  | .modernNoMeta => x.kind = .hnew → c.params.isObject = false → o.ran = 0
   | .unreadable => True
 
 theorem firstRule'_some : ∀ {l : List (Bool × Clause)} {cl : Clause}, monitor.firstRule' l = some cl → (true, cl) ∈ l
@@ -374,7 +407,7 @@ theorem monitor_sound (m : Mem) (c : Call) (o : CObs) (x : Sess) (cl : Clause) (
   have hmem := firstRule'_some h
   simp only [callRules, List.mem_cons, Prod.mk.injEq, List.mem_nil_iff, or_false] at hmem
   intro hP
-  rcases hmem with ⟨h1, rfl⟩ | ⟨h1, rfl⟩ | ⟨h1, rfl⟩ | ⟨h1, rfl⟩ | ⟨h1, rfl⟩ | ⟨h1, rfl⟩ | ⟨h1, rfl⟩ | ⟨h1, rfl⟩ | ⟨h1, rfl⟩
+  rcases hmem with ⟨h1, rfl⟩ | ⟨h1, rfl⟩ | ⟨h1, rfl⟩ | ⟨h1, rfl⟩ | ⟨h1, rfl⟩ | ⟨h1, rfl⟩ | ⟨h1, rfl⟩ | ⟨h1, rfl⟩ | ⟨h1, rfl⟩ | ⟨h1, rfl⟩
   · simp only [P] at hP
     cases hw : o.w <;> simp [hw] at h1
     exact hP _ hw
@@ -390,7 +423,7 @@ theorem monitor_sound (m : Mem) (c : Call) (o : CObs) (x : Sess) (cl : Clause) (
   · simp only [P] at hP
     have h1 := h1.symm
     simp only [Bool.and_eq_true, Bool.not_eq_true', Bool.or_eq_true, bne_iff_ne, ne_eq] at h1
-    obtain ⟨a, b⟩ := hP h1.1
+    obtain ⟨a, b⟩ := hP h1.1.1 (by simpa using h1.1.2)
     rcases h1.2 with h2 | ⟨⟨h2, h3⟩, h4⟩
     · exact h2 a
     · rcases b h2 with b | ⟨b1, b2, b3⟩
@@ -427,6 +460,10 @@ theorem monitor_sound (m : Mem) (c : Call) (o : CObs) (x : Sess) (cl : Clause) (
     have h1 := h1.symm
     simp only [decide_eq_true_eq] at h1
     omega
+  · simp only [P] at hP
+    have h1 := h1.symm
+    simp only [Bool.and_eq_true, beq_iff_eq, Bool.not_eq_true', bne_iff_ne, ne_eq] at h1
+    exact h1.2 (hP h1.1.1 h1.1.2)
 
 /-- **monitor_complete (custom).** Silence on a call means every clause holds on it. -/
 theorem monitor_complete (m : Mem) (c : Call) (o : CObs) (x : Sess) (hx : m.sess[c.k]? = some x)
@@ -454,7 +491,9 @@ theorem monitor_complete (m : Mem) (c : Call) (o : CObs) (x : Sess) (hx : m.sess
   | beforeInit =>
     intro hi
     have := H (_, .beforeInit) (Or.inr (Or.inr (Or.inr (Or.inr (Or.inl rfl)))))
-    simp only [hi, Bool.not_false, Bool.true_and, Bool.or_eq_false_iff, bne_eq_false_iff_eq,
+    intro hmod
+    have hmod' : (x.kind != Kind.hnew) = true := by simpa using hmod
+    simp only [hi, hmod', Bool.not_false, Bool.true_and, Bool.or_eq_false_iff, bne_eq_false_iff_eq,
       Bool.and_eq_false_iff, Bool.not_eq_false'] at this
     refine ⟨this.1, fun hid => ?_⟩
     rcases this.2 with (h2 | h2) | h2
@@ -486,9 +525,13 @@ theorem monitor_complete (m : Mem) (c : Call) (o : CObs) (x : Sess) (hx : m.sess
     simp only [hi, hid, hk', hb, Bool.true_and, Bool.or_eq_false_iff, bne_eq_false_iff_eq] at this
     exact this
   | ranTwice =>
-    have := H (_, .ranTwice) (Or.inr (Or.inr (Or.inr (Or.inr (Or.inr (Or.inr (Or.inr (Or.inr rfl))))))))
+    have := H (_, .ranTwice) (Or.inr (Or.inr (Or.inr (Or.inr (Or.inr (Or.inr (Or.inr (Or.inr (Or.inl rfl)))))))))
     simp only [decide_eq_false_iff_not] at this
     simp only [P]; omega
+  | modernNoMeta =>
+    intro hk hob
+    have := H (_, .modernNoMeta) (Or.inr (Or.inr (Or.inr (Or.inr (Or.inr (Or.inr (Or.inr (Or.inr (Or.inr rfl)))))))))
+    simpa [hk, hob] using this
   | unreadable => trivial
 
 /-! ## The monitor accepts the model, on every history -/
@@ -508,7 +551,11 @@ def obsOf (kind : Kind) : Res → Obs
   | .out o => .called ⟨wOfAns o.ans,
       (match kind with
         | .mem | .cli => none
-        | .http => some (match o.ans with | .httpRefused => 400 | .nothing => 202 | _ => 200)),
+        | .http => some (match o.ans with | .httpRefused => 400 | .nothing => 202 | _ => 200)
+        -- extractErrorStatus: under the new protocol -32601 is HTTP 404, -32602 is HTTP 400
+        | .hnew => some (match o.ans with
+            | .httpRefused => 400 | .nothing => 202 | .result => 200
+            | .error c => if c == codeMethodNotFound then 404 else if c == codeInvalidParams then 400 else 200)),
       if o.ran then 1 else 0⟩
 
 def kindOf (s : State) : Op → Kind
@@ -518,12 +565,14 @@ def kindOf (s : State) : Op → Kind
 def memOf (s : State) : Mem := ⟨s.registered, s.sess⟩
 
 theorem tbl_custom_codes : codeNone = 0 ∧ checkUnknownMethod = -32601 ∧ decodeFailure = -32602 := by decide
+theorem tbl_custom_codes' : codeInvalidParams = -32602 ∧ codeMethodNotFound = -32601 := by decide
 
 /-- One step: the monitor's memory follows the model's state, and nothing is reported. -/
 theorem step_accepted (s : State) (o : Op) :
     monitor (memOf s) o (obsOf (kindOf s o) (step s o).2) = none ∧
     memNext (memOf s) o (obsOf (kindOf s o) (step s o).2) = memOf (step s o).1 := by
   obtain ⟨t1, t2, t3⟩ := tbl_custom_codes
+  obtain ⟨t4, t5⟩ := tbl_custom_codes'
   cases o with
   | reg n =>
     simp only [step]
@@ -541,8 +590,9 @@ theorem step_accepted (s : State) (o : Op) :
       obtain ⟨kind, init⟩ := x
       by_cases hk : c.name ∈ s.registered <;>
       cases kind <;> cases init <;> cases hid : c.hasId <;> cases hb : badParams c.params <;>
-        simp [kindOf, hx, obsOf, monitor, memOf, answerOn, sessionAnswer, httpAnswer, monitor.firstRule', callRules,
-          hid, hk, hb, wOfAns, isErr, is4xx, t1, t2, t3]
+        cases hob : c.params.isObject <;>
+        simp [kindOf, hx, obsOf, monitor, memOf, answerOn, sessionAnswer, httpAnswer, modernAnswer, monitor.firstRule',
+          callRules, hid, hk, hb, hob, wOfAns, isErr, is4xx, t1, t2, t3, t4, t5]
 
 def monRun : Mem → State → List Op → Option (Nat × Clause)
   | _, _, [] => none
@@ -560,6 +610,137 @@ theorem monitor_accepts_model : ∀ (l : List Op) (s : State), monRun (memOf s) 
     simp only [monRun, h1, h2]
     rw [monitor_accepts_model l]
     rfl
+
+/-! ## A registration racing a call in flight: two labels
+
+A call written to a pipe session whose queue is stopped (a notification handler of the session has not returned:
+notifications are handled synchronously on the jsonrpc2 queue) has been READ but not yet looked up. Label 1
+(`callq`) = the envelope is queued; label 2 (`release`) = the queue runs and `handleReceive` consults the server's
+table AS IT IS THEN. `AddReceivingCustomMethod` may fall before label 1, between the two labels, or after label 2. -/
+
+structure QState where
+  base : State := {}
+  /-- the held pipe sessions, each with the calls queued on it -/
+  queues : List (Nat × List Call) := []
+deriving DecidableEq, Repr
+
+def heldQ (q : QState) (k : Nat) : Option (List Call) := (q.queues.find? (fun p => p.1 == k)).map (·.2)
+
+inductive QOp
+  | base (o : Op)
+  | holdq (k : Nat)
+  | callq (c : Call)
+  | release (k : Nat)
+deriving DecidableEq, Repr
+
+inductive QRes
+  | base (r : Res)
+  | ok | na | queued
+  | released (outs : List Out)
+deriving DecidableEq, Repr
+
+def opSession : Op → Option Nat
+  | .call c => some c.k
+  | .hs k => some k
+  | _ => none
+
+def qstep (q : QState) : QOp → QState × QRes
+  | .base o =>
+    -- an envelope written to a held session would only be queued: not an operation of this label
+    if ((opSession o).bind (heldQ q)).isSome then (q, .na)
+    else ({ q with base := (step q.base o).1 }, .base (step q.base o).2)
+  | .holdq k =>
+    match q.base.sess[k]?, heldQ q k with
+    | some ⟨.mem, true⟩, none => ({ q with queues := (k, []) :: q.queues }, .ok)
+    | _, _ => (q, .na)
+  | .callq c =>
+    match heldQ q c.k with
+    | some _ => ({ q with queues := q.queues.map (fun p => if p.1 == c.k then (p.1, p.2 ++ [c]) else p) }, .queued)
+    | none => (q, .na)
+  | .release k =>
+    match heldQ q k with
+    | some l => ({ q with queues := q.queues.filter (fun p => p.1 != k) },
+                 .released (l.map (sessionAnswer q.base.registered true)))
+    | none => (q, .na)
+
+def qrun : QState → List QOp → QState
+  | q, [] => q
+  | q, o :: l => qrun (qstep q o).1 l
+
+/-- An initialized session answers every call that carries an id: a result or an error, never nothing. -/
+theorem sessionAnswer_answered (reg : List String) (c : Call) (hid : c.hasId = true) :
+    (sessionAnswer reg true c).ans = .result ∨ ∃ code, (sessionAnswer reg true c).ans = .error code := by
+  simp only [sessionAnswer, hid]
+  by_cases h1 : c.name ∈ reg
+  · by_cases h2 : badParams c.params = true
+    · right; exact ⟨decodeFailure, by simp [h1, h2]⟩
+    · left; simp [h1, h2]
+  · right; exact ⟨checkUnknownMethod, by simp [h1]⟩
+
+/-- **Exactly once, whatever the order.** When the queue of a held session runs, every call queued on it gets
+exactly one outcome (the list of outcomes has the queue's length, in order), computed from the table as it is at
+that moment; a call that carries an id is answered with a result or an error — never dropped — whether the
+registration of its method fell before it was written, while it was queued, or comes only afterwards. -/
+theorem release_answers_each_once (q : QState) (k : Nat) (l : List Call) (h : heldQ q k = some l) :
+    (qstep q (.release k)).2 = .released (l.map (sessionAnswer q.base.registered true)) ∧
+    (l.map (sessionAnswer q.base.registered true)).length = l.length ∧
+    ∀ c ∈ l, c.hasId = true →
+      (sessionAnswer q.base.registered true c).ans = .result ∨ ∃ code, (sessionAnswer q.base.registered true c).ans = .error code := by
+  refine ⟨by simp [qstep, h], by simp, fun c _ hid => sessionAnswer_answered _ c hid⟩
+
+/-- A registration between the two labels does not touch the queue and is visible to label 2. -/
+theorem reg_between_labels (q : QState) (n : String) (hn : isStandard n = false) :
+    (qstep q (.base (.reg n))).1.queues = q.queues ∧ n ∈ (qstep q (.base (.reg n))).1.base.registered := by
+  simp [qstep, opSession, step, hn]
+
+/-- **Both orders.** The call is queued first; if the registration falls before the queue runs the handler's
+result is the answer, if the queue runs first the answer is method-not-found — one answer either way. -/
+theorem race_both_orders (q : QState) (k : Nat) (n : String) (c : Call) (hn : isStandard n = false)
+    (hc : c.name = n) (hid : c.hasId = true) (hb : badParams c.params = false)
+    (hnot : n ∉ q.base.registered) (hq : heldQ q k = some [c]) :
+    (qstep (qstep q (.base (.reg n))).1 (.release k)).2 = .released [⟨.result, true⟩] ∧
+    (qstep q (.release k)).2 = .released [⟨.error checkUnknownMethod, false⟩] := by
+  have h1 : heldQ (qstep q (.base (.reg n))).1 k = some [c] := by
+    simp only [heldQ, (reg_between_labels q n hn).1]; exact hq
+  have hreg : (qstep q (.base (.reg n))).1.base.registered = n :: q.base.registered := by
+    simp [qstep, opSession, step, hn]
+  constructor
+  · generalize (qstep q (.base (.reg n))).1 = q' at h1 hreg
+    simp [qstep, h1, hreg, sessionAnswer, hid, hb, hc]
+  · have : c.name ∉ q.base.registered := by rw [hc]; exact hnot
+    simp [qstep, hq, sessionAnswer, hid, this]
+
+/-- The monitor of label 2: every queued call that carries an id has an answer, none is answered twice or with
+another id, and a queued notification is not answered. `ws`: what came back per queued call, in order. -/
+def monitorRelease : List Call → List W → Option Clause
+  | [], [] => none
+  | c :: l, w :: ws =>
+    if c.hasId && w == .none then some .dropped
+    else if (match w with | .multi _ => true | _ => false) then some .multi
+    else if (match w with | .stray _ => true | _ => false) then some .stray
+    else if !c.hasId && w != .none then some .notifAnswered
+    else monitorRelease l ws
+  | _, _ => some .unreadable
+
+/-- The monitor of label 2 accepts what the model does, for every queue and every table. -/
+theorem release_accepted (reg : List String) : ∀ l : List Call,
+    monitorRelease l ((l.map (sessionAnswer reg true)).map (fun o => wOfAns o.ans)) = none
+  | [] => rfl
+  | c :: l => by
+    simp only [List.map_cons, monitorRelease]
+    rw [release_accepted reg l]
+    cases hid : c.hasId
+    · simp [sessionAnswer, hid, wOfAns]
+    · rcases sessionAnswer_answered reg c hid with h | ⟨code, h⟩ <;> simp [h, wOfAns]
+
+/-- Non-vacuity of the race: hold, queue the call, register, release — served; release first — not found. -/
+example :
+    (qstep (qrun { base := { sess := [⟨.mem, true⟩] } }
+      [.holdq 0, .callq ⟨0, "acme/late", true, .objOk⟩, .base (.reg "acme/late")]) (.release 0)).2 =
+      .released [⟨.result, true⟩] ∧
+    (qstep (qrun { base := { sess := [⟨.mem, true⟩] } }
+      [.holdq 0, .callq ⟨0, "acme/late", true, .objOk⟩]) (.release 0)).2 =
+      .released [⟨.error (-32601), false⟩] := by decide
 
 /-- Non-vacuity: the m14 shape — a streamable session, then the registration, then the call — is served. -/
 example : (step (run {} [.openS .http, .reg "acme/late"]) (.call ⟨0, "acme/late", true, .objOk⟩)).2 =
